@@ -840,7 +840,8 @@ def op_topk(g):
 
 
 def op_nonzero(g):
-    x = g.pick(lambda v: _num(v) or v.dtype.kind == "b")
+    # rank >= 1: for a rank-0 input the spec (and onnx shape inference) says the result is [0, n], ORT returns [1, n]
+    x = g.pick(lambda v: (_num(v) or v.dtype.kind == "b") and v.rank >= 1)
     return g.add("NonZero", [x], mag=8)
 
 
